@@ -85,6 +85,7 @@ namespace awkward {
     void null() { writer_.Null(); }
     void boolean(bool x) { writer_.Bool(x); }
     void integer(int64_t x) { writer_.Int64(x); }
+    void uinteger(uint64_t x) { writer_.Uint64(x); }
     void real(double x) { writer_.Double(x); }
     void complex(std::complex<double> x,
                  const char* complex_real_string,
@@ -146,6 +147,11 @@ namespace awkward {
   void
   ToJsonString::integer(int64_t x) {
     impl_->integer(x);
+  }
+
+  void
+  ToJsonString::uinteger(uint64_t x) {
+    impl_->uinteger(x);
   }
 
   void
@@ -233,6 +239,7 @@ namespace awkward {
     void null() { writer_.Null(); }
     void boolean(bool x) { writer_.Bool(x); }
     void integer(int64_t x) { writer_.Int64(x); }
+    void uinteger(uint64_t x) { writer_.Uint64(x); }
     void real(double x) { writer_.Double(x); }
     void complex(std::complex<double> x,
                  const char* complex_real_string,
@@ -294,6 +301,11 @@ namespace awkward {
   void
   ToJsonPrettyString::integer(int64_t x) {
     impl_->integer(x);
+  }
+
+  void
+  ToJsonPrettyString::uinteger(uint64_t x) {
+    impl_->uinteger(x);
   }
 
   void
@@ -385,6 +397,7 @@ namespace awkward {
     void null() { writer_.Null(); }
     void boolean(bool x) { writer_.Bool(x); }
     void integer(int64_t x) { writer_.Int64(x); }
+    void uinteger(uint64_t x) { writer_.Uint64(x); }
     void real(double x) { writer_.Double(x); }
     void complex(std::complex<double> x,
                  const char* complex_real_string,
@@ -446,6 +459,11 @@ namespace awkward {
   void
   ToJsonFile::integer(int64_t x) {
     impl_->integer(x);
+  }
+
+  void
+  ToJsonFile::uinteger(uint64_t x) {
+    impl_->uinteger(x);
   }
 
   void
@@ -532,6 +550,7 @@ namespace awkward {
     void null() { writer_.Null(); }
     void boolean(bool x) { writer_.Bool(x); }
     void integer(int64_t x) { writer_.Int64(x); }
+    void uinteger(uint64_t x) { writer_.Uint64(x); }
     void real(double x) { writer_.Double(x); }
     void complex(std::complex<double> x,
                  const char* complex_real_string,
@@ -595,6 +614,11 @@ namespace awkward {
   void
   ToJsonPrettyFile::integer(int64_t x) {
     impl_->integer(x);
+  }
+
+  void
+  ToJsonPrettyFile::uinteger(uint64_t x) {
+    impl_->uinteger(x);
   }
 
   void
